@@ -232,6 +232,14 @@ func (g *gen) dir(prefix string, depth int) {
 			if sz == 0 {
 				e.Data = []byte{}
 			}
+			if sz >= 4096 && g.r.P(1, 10) {
+				// blank content (all zero bytes), or zero runs that cover whole
+				// chunks: writers that treat zero blocks specially see them
+				e.Data = make([]byte, sz)
+				if g.r.P(1, 2) {
+					e.Data[g.r.Intn(sz)] = 1
+				}
+			}
 		case Symlink:
 			e.Target = g.target(prefix)
 		case Char, Block:
